@@ -179,7 +179,8 @@ def evaluate(ctx, cases):
                                     clist(["(%d, %d, %d)" % o for o in libobs]), clist([cbool(b) for b in busy]))
         for sched in c["scheds"]:
             lit = sched if isinstance(sched, str) else sched_literal(sched)
-            coqcases.append(("(%d, %s)" % (c["n"], lit), exp))
+            coqcases.append(("((%d, %s) : nat * list (nat * choice))" % (c["n"], lit),
+                             "(%s : nat * bool * list (nat * nat * nat) * list bool)" % exp))
             owner.append(small)
     fexpr = ("fun (ns : nat * list (nat * choice)) => let s := run (fst ns) (snd ns) in "
              "(pycount s, bad s, map (fun l => (icount (libs s l), zeros s l, "
